@@ -3,10 +3,12 @@ package checks
 import (
 	"bytes"
 	"context"
+	"errors"
 	"fmt"
 	"os"
 	"path/filepath"
 	"sync"
+	"sync/atomic"
 	"testing"
 
 	"github.com/tonistiigi/fsutil"
@@ -26,6 +28,11 @@ type c06Case struct {
 	MemSrc   bool        `json:"memsrc"`
 	Script   h.ReqScript `json:"script"`
 	Capacity int         `json:"capacity"`
+	// AbortedBefore: an earlier Send in the same process was cut off in the middle
+	// of a file (the stream broke at its n-th DATA packet) right before this run:
+	// whatever a failed call leaves behind in process-wide state (buffer pools)
+	// must not leak into the next one
+	AbortedBefore int `json:"aborted_before,omitempty"`
 }
 
 var c06TreeCfg = h.TreeCfg{
@@ -76,7 +83,66 @@ func genC06(t *rapid.T) *c06Case {
 	if rapid.IntRange(0, 5).Draw(t, "slow") == 0 {
 		sc.ReadDelayUS = rapid.SampledFrom([]int{50, 200}).Draw(t, "delay")
 	}
+	if rapid.IntRange(0, 3).Draw(t, "aborted") == 0 {
+		c.AbortedBefore = rapid.IntRange(1, 5).Draw(t, "abortat")
+	}
 	return c
+}
+
+// c06AbortedSend runs a Send that fails in the middle of file data: three
+// 70 KB files, all requested, the stream breaks at the n-th DATA packet (odd n:
+// a source read error instead). Its outcome is not judged here (C04 does that).
+func c06AbortedSend(n int) {
+	tr := &h.Tree{}
+	for i := 0; i < 3; i++ {
+		tr.Nodes = append(tr.Nodes, h.Node{Path: fmt.Sprintf("p%d", i), Kind: h.KFile, Perm: 0o644, Size: 70000, Seed: uint32(90 + i)})
+	}
+	tr.Normalize()
+	mem := &h.MemFS{T: tr, LinkSizeFull: true}
+	if n%2 == 1 {
+		mem.ReadErrPath, mem.ReadErrAt, mem.ReadErr = "p1", 40000, errors.New("verif: injected read error")
+	}
+	pair := h.NewPair(context.Background(), 1)
+	var data int32
+	pair.S.BeforeSend = func(_ int, p *types.Packet) error {
+		if p.Type == types.PACKET_DATA && n%2 == 0 && int(atomic.AddInt32(&data, 1)) == n {
+			pair.S.Break(errors.New("verif: stream broken"))
+			pair.R.Break(errors.New("verif: stream broken"))
+			return errors.New("verif: stream broken")
+		}
+		return nil
+	}
+	pair.S.AfterSend = func(_ int, p *types.Packet) {
+		if p.Type == types.PACKET_ERR {
+			// a receiver closes the stream when it is told about an error
+			pair.S.Break(errors.New("verif: receiver closed after ERR"))
+			pair.R.Break(errors.New("verif: receiver closed after ERR"))
+		}
+	}
+	var wg sync.WaitGroup
+	wg.Add(2)
+	go func() {
+		defer wg.Done()
+		err := fsutil.Send(pair.S.Context(), pair.S, mem, nil)
+		pair.S.Returned(err)
+		pair.R.Break(errors.New("verif: sender gone")) // release the reference receiver at once
+	}()
+	go func() {
+		defer wg.Done()
+		h.RunRefReceiver(pair.R, h.ReqScript{Order: []int{0, 1, 2}, Eager: true})
+		pair.R.Returned(nil)
+	}()
+	done := make(chan struct{})
+	go func() { wg.Wait(); close(done) }()
+	if dump := h.WaitOrStuck(done, pair); dump != "" {
+		pair.S.Break(nil)
+		pair.R.Break(nil)
+		pair.S.Cancel()
+		pair.R.Cancel()
+		<-done
+	}
+	pair.S.Cancel()
+	pair.R.Cancel()
 }
 
 func seq(n int) []int {
@@ -139,6 +205,10 @@ func c06Check(env *h.Env, c *c06Case) error {
 		}
 	}
 
+	if c.AbortedBefore > 0 {
+		env.Class("after-aborted-send")
+		c06AbortedSend(c.AbortedBefore)
+	}
 	pair := h.NewPair(context.Background(), c.Capacity)
 	var sendErr error
 	var prog []h.ProgressCall
